@@ -220,7 +220,7 @@ func init() {
 		Assume: []string{"operand-stack heights >= 96 and detail counts >= 3 are merged", "the opcode transfer table in absvm restates rollvm.go's dispatch loop; a mismatch surfaces as MACHINERY:model-divergence, not as a property violation"},
 		Enumerate: c08Enumerate,
 		Run:       c08Run,
-		Budget:    map[string]time.Duration{"quick": 170 * time.Second, "thorough": 40 * time.Minute},
+		Budget:    map[string]time.Duration{"quick": 400 * time.Second, "thorough": 40 * time.Minute},
 		Extra: func(stats map[string]int64, cov map[string]any) {
 			cov["states"] = stats["states"]
 			cov["transitions"] = stats["transitions"]
